@@ -1,75 +1,133 @@
-/- Line-protocol ops of the template engine: one op line = one whole API history. -/
+/- Line-protocol ops of the template engine: one op line = one whole API history.
+   Exec steps are annotated `res~fresh~frozen` (see tools/harness/tmpl.go `annotate`). -/
 import SafeHtml.Ops.Common
-import SafeHtml.Model.Tmpl.Api
+import SafeHtml.Model.Tmpl.Step
 import SafeHtml.Model.Tmpl.PrefixLite
 namespace SafeHtml.Ops.Tmpl
 open SafeHtml SafeHtml.Ops SafeHtml.Model.Tmpl
 
-/-- one step of a history: fields are space separated, byte strings hex encoded -/
-def stepLine (w : World) (line : String) : World × String :=
-  let f := (line.splitOn " ").filter (· ≠ "")
-  let nat (s : String) : Nat := s.toNat?.getD 0
-  let str (s : String) : String := match unhex s with | some b => strOfBytes b | none => ""
-  match f with
-  | ["new", h, name] =>
-    let (w, oid) := w.newSet (str name)
-    (w.bind (nat h) oid, "ok")
-  | ["assocnew", h, name, h'] =>
-    match w.obj (nat h) with
-    | some (_, o) =>
-      let (w, oid) := w.assocNew o.ns (str name)
-      (w.bind (nat h') oid, "ok")
-    | none => (w, "unsupported")
-  | ["parse", h, _text, defs] =>
-    match (unhex defs).bind parseDefsBytes with
-    | some ds => apiParse w (nat h) ds
-    | none => (w, "bad-defs")
-  | ["clone", h, h'] => apiClone w (nat h) (nat h')
-  | ["lookup", h, name, h'] => apiLookup w (nat h) (str name) (nat h')
-  | ["templates", h] => (w, apiTemplates w (nat h))
-  | ["csp", h] =>
-    match w.obj (nat h) with
-    | some (_, o) => let ns := w.ns o.ns; (w.setNs o.ns { ns with csp := true }, "ok")
-    | none => (w, "unsupported")
-  | ["exec", h, data] =>
-    match (unhex data).bind parseValueBytes with
-    | some d => let (w, r) := apiExecute w (nat h) d; (w, r.str)
-    | none => (w, "bad-data")
-  | ["exect", h, name, data] =>
-    match (unhex data).bind parseValueBytes with
-    | some d => let (w, r) := apiExecuteTemplate w (nat h) (str name) d; (w, r.str)
-    | none => (w, "bad-data")
-  | ["exechtml", h, data] =>
-    match (unhex data).bind parseValueBytes with
-    | some d =>
-      let (w, r) := apiExecute w (nat h) d
-      (w, match r with | .err c _ => (Res.err c []).str | r => r.str)
-    | none => (w, "bad-data")
-  | ["execthtml", h, name, data] =>
-    match (unhex data).bind parseValueBytes with
-    | some d =>
-      let (w, r) := apiExecuteTemplate w (nat h) (str name) d
-      (w, match r with | .err c _ => (Res.err c []).str | r => r.str)
-    | none => (w, "bad-data")
-  | _ => (w, "bad-step")
+def fieldsOf (line : String) : List String := (line.splitOn " ").filter (· ≠ "")
+def natOf (s : String) : Nat := s.toNat?.getD 0
+def strOf (s : String) : String := match unhex s with | some b => strOfBytes b | none => ""
 
-def runHistory (lines : List String) : List String :=
-  let rec go : List String → World → Bool → List String
+/-- one line of a history as a typed operation (fields are space separated, byte strings hex encoded) -/
+def parseOp (line : String) : Option Op :=
+  match fieldsOf line with
+  | ["new", h, name] => some (.new (natOf h) (strOf name))
+  | ["assocnew", h, name, h'] => some (.assocNew (natOf h) (strOf name) (natOf h'))
+  | ["parse", h, _text, defs] => ((unhex defs).bind parseDefsBytes).map (.parse (natOf h))
+  | ["clone", h, h'] => some (.clone (natOf h) (natOf h'))
+  | ["lookup", h, name, h'] => some (.lookup (natOf h) (strOf name) (natOf h'))
+  | ["templates", h] => some (.templates (natOf h))
+  | ["csp", h] => some (.csp (natOf h))
+  | ["exec", h, data] => ((unhex data).bind parseValueBytes).map (.exec (natOf h))
+  | ["exect", h, name, data] => ((unhex data).bind parseValueBytes).map (.execT (natOf h) (strOf name))
+  | ["exechtml", h, data] => ((unhex data).bind parseValueBytes).map (.execHTML (natOf h))
+  | ["execthtml", h, name, data] => ((unhex data).bind parseValueBytes).map (.execTHTML (natOf h) (strOf name))
+  | _ => none
+
+/-- one step: the new world, the canonical result and (for panics) the model's panic site -/
+def stepLine (w : World) (line : String) : World × String × String :=
+  match parseOp line with
+  | none => (w, "bad-step", "")
+  | some op =>
+    let (w', r) := Api.step w op
+    (w', r.str, r.site)
+
+/-- run steps on a fresh world; after a panic the remaining steps are skipped -/
+def runLines (lines : List String) : List (String × String) :=
+  let rec go : List String → World → Bool → List (String × String)
     | [], _, _ => []
     | l :: ls, w, dead =>
-      if dead then "skipped" :: go ls w true
+      if dead then ("skipped", "") :: go ls w true
       else
-        let (w', r) := stepLine w l
-        r :: go ls w' (r == "panic")
+        let (w', r, site) := stepLine w l
+        (r, site) :: go ls w' (r == "panic")
   go lines { v := liteValidators } false
+
+def opOf (line : String) : String := (fieldsOf line).headD ""
+def isExecOp (op : String) : Bool := op == "exec" || op == "exect" || op == "exechtml" || op == "execthtml"
+def isDefOp (op : String) : Bool :=
+  op == "new" || op == "assocnew" || op == "parse" || op == "clone" || op == "lookup" || op == "csp"
+
+/-- set id of the handle each step operates on (mirrors `stepSets` of the harness). Handles carry
+    (set id, template name); `assocnew h name h'` moves every handle that denotes the old template of
+    that name into a brand-new set (`*existing = *emptyTmpl`). -/
+def stepSets (lines res : List String) : List Nat :=
+  let rec go : List (String × String) → List (Nat × Nat × String) → Nat → List Nat
+    | [], _, _ => []
+    | (l, r) :: rest, tab, next =>
+      let f := fieldsOf l
+      let h := natOf (f.getD 1 "")
+      let cur := (tab.find? (·.1 == h)).map (·.2.1) |>.getD 0
+      let curName := (tab.find? (·.1 == h)).map (·.2.2) |>.getD ""
+      let put (t : List (Nat × Nat × String)) (x s : Nat) (n : String) := (x, s, n) :: t.filter (·.1 != x)
+      match f with
+      | ["new", _, n] => next :: go rest (put tab h next (strOf n)) (next + 1)
+      | ["assocnew", _, n, h'] =>
+        let nm := strOf n
+        -- handles in ascending order get fresh ids one by one
+        let hs := (tab.filter fun e => e.2.1 == cur && e.2.2 == nm).map (·.1)
+        let hsSorted := hs.foldl (fun acc x => (acc.filter (· < x)) ++ [x] ++ (acc.filter (· > x))) []
+        let (tab', next') := hsSorted.foldl (fun (acc : List (Nat × Nat × String) × Nat) x =>
+          (put acc.1 x acc.2 nm, acc.2 + 1)) (tab, next)
+        cur :: go rest (put tab' (natOf h') cur nm) next'
+      | ["lookup", _, n, h'] =>
+        if r == "nil" then cur :: go rest tab next
+        else cur :: go rest (put tab (natOf h') cur (strOf n)) next
+      | ["clone", _, h'] =>
+        if r == "ok" then cur :: go rest (put tab (natOf h') next curName) (next + 1)
+        else cur :: go rest tab next
+      | _ => cur :: go rest tab next
+  go (lines.zip res) [] 0
+
+def isFailedRes (r : String) : Bool :=
+  r.startsWith "err" || r == "panic" || r == "skipped" || r == "timeout"
+
+/-- index of the first exec step of each set -/
+def firstExecOf (lines : List String) (sets : List Nat) (s : Nat) : Nat :=
+  let idx := (List.range lines.length).find? fun i =>
+    isExecOp (opOf (lines.getD i "")) && sets.getD i 0 == s
+  idx.getD lines.length
+
+/-- index of the last step before `i` that binds handle `h` -/
+def bindStepOf (lines : List String) (i h : Nat) : Nat :=
+  let idx := (List.range i).reverse.find? fun j =>
+    match fieldsOf (lines.getD j "") with
+    | ["new", x, _] => natOf x == h
+    | ["assocnew", _, _, x] => natOf x == h
+    | ["lookup", _, _, x] => natOf x == h
+    | ["clone", _, x] => natOf x == h
+    | _ => false
+  idx.getD 0
+
+/-- exec steps get `~fresh~frozen` appended, computed by `run` (the model, or nothing for the oracle) -/
+def annotateWith (run : List String → List String) (lines res : List String) : List String :=
+  let sets := stepSets lines res
+  (List.range lines.length).map fun i =>
+    let l := lines.getD i ""
+    let r := res.getD i ""
+    if !isExecOp (opOf l) || r == "skipped" then r
+    else
+      let fe := firstExecOf lines sets (sets.getD i 0)
+      let defs := (List.range i).filter fun j => isDefOp (opOf (lines.getD j "")) && !isFailedRes (res.getD j "")
+      let all := defs.map fun j => lines.getD j ""
+      let frozen := (defs.filter (· < fe)).map fun j => lines.getD j ""
+      let ra := (run (all ++ [l])).getLast?.getD ""
+      -- the frozen reference is only defined for handles that existed when the set froze
+      let h := natOf ((fieldsOf l).getD 1 "")
+      let rf := if bindStepOf lines i h ≥ fe && fe < i then r else (run (frozen ++ [l])).getLast?.getD ""
+      r ++ "~" ++ ra ++ "~" ++ rf
+
+def historyLines (h : Bytes) : List String := (strOfBytes h).splitOn "\n" |>.filter (· ≠ "")
+
+def modelHistory (lines : List String) : List String :=
+  let res := (runLines lines).map (·.1)
+  annotateWith (fun ls => (runLines ls).map (·.1)) lines res
 
 def model (op : String) (a : List Bytes) : Option String :=
   match op, a with
-  | "tmpl.hist", [h] =>
-    let lines := (strOfBytes h).splitOn "\n" |>.filter (· ≠ "")
-    some (String.intercalate ";" (runHistory lines))
+  | "tmpl.hist", [h] => some (String.intercalate ";" (modelHistory (historyLines h)))
   | _, _ => none
-
-def oracle (_op : String) (_a : List Bytes) (_real : List String) : Option String := none
 
 end SafeHtml.Ops.Tmpl
